@@ -525,6 +525,10 @@ pub struct ResultSpec {
     /// when set, this value is encoded as the result code instead of `rc` (codes that do not fit 32 bits)
     #[serde(default)]
     pub rc_wide: Option<u64>,
+    /// when set, these are the content octets of the result code ENUMERATED (codes of nine or more octets;
+    /// the generators only write values above 2^32 here)
+    #[serde(default)]
+    pub rc_octets: Option<Bytes>,
     pub matched: String,
     pub text: String,
     /// `None` = no referral element; `Some(v)` = `[3]` referral with these URIs
@@ -536,7 +540,7 @@ pub struct ResultSpec {
 
 impl ResultSpec {
     pub fn simple(rc: u32, text: &str) -> ResultSpec {
-        ResultSpec { rc, rc_wide: None, matched: String::new(), text: text.to_string(), refs: None, sasl_creds: None, exop_name: None, exop_val: None }
+        ResultSpec { rc, rc_wide: None, rc_octets: None, matched: String::new(), text: text.to_string(), refs: None, sasl_creds: None, exop_name: None, exop_val: None }
     }
 }
 
@@ -566,7 +570,11 @@ pub fn encode_controls(cs: &[Ctl]) -> Tlv {
             .map(|c| {
                 let mut v = vec![Tlv::octets(c.oid.clone())];
                 if let Some(b) = c.crit {
-                    v.push(Tlv::boolean(b));
+                    // BER: any non-zero octet is TRUE. Which one this (response) control carries is a function
+                    // of its content, so that a run is still decided by its scenario alone.
+                    let h = c.oid.iter().chain(c.val.iter().flatten()).fold(0x9eu8, |h, x| h.rotate_left(3) ^ *x);
+                    let t = [0xFFu8, 0xFF, 0x01, 0x80, 0x7F, 0xFF, 0x10, 0xFE][(h % 8) as usize];
+                    v.push(Tlv::prim(Class::Univ, 1, vec![if b { t } else { 0 }]));
                 }
                 if let Some(val) = &c.val {
                     v.push(Tlv::octets(val.clone()));
@@ -579,7 +587,10 @@ pub fn encode_controls(cs: &[Ctl]) -> Tlv {
 
 pub fn result_tlv(tag: u32, r: &ResultSpec) -> Tlv {
     let mut v = vec![
-        Tlv::enumerated(r.rc_wide.map(|w| w.min(i64::MAX as u64) as i64).unwrap_or(r.rc as i64)),
+        match &r.rc_octets {
+            Some(o) => Tlv::prim(Class::Univ, 10, o.clone()),
+            None => Tlv::enumerated(r.rc_wide.map(|w| w.min(i64::MAX as u64) as i64).unwrap_or(r.rc as i64)),
+        },
         Tlv::octets(r.matched.as_bytes()),
         Tlv::octets(r.text.as_bytes()),
     ];
